@@ -239,6 +239,11 @@ def gen_ctrl(rng):
         if q < 0.90:                                  # processors change on the world
             z = rng.random()
             same = [p for p in plist if procs[p] == fpt]
+            if rng.random() < 0.35:                   # assigned through a reference of a supertype
+                p = rng.choice(plist)
+                sups = [PT0 + j for j in panc[procs[p]]]
+                strict = [t for t in sups if t != PT0 + procs[p]]
+                return ['short', k, e, ['prefset', rng.choice(strict or sups), p], 'method']
             if z < 0.55 and same:
                 return ['addproc', rng.choice(same)]  # replaces the one of that exact type
             if z < 0.8:
